@@ -330,7 +330,9 @@ def grid(tier):
             for dz in (0.4, 5.2, -5.2):    # |dz| / pitch away from integers: the turn count is int(|dz| / pitch)
                 out.append((res, lambda s, d, pitch=pitch, dz=dz: thread_case(s, d, 6.0, 20, dz, pitch)))
         splines = [[(5, 5)], [(5, 5), (10, 0)], [(5, 5, 2), (10, 0, 2), (15, 5, 0)], [(5, 5), (5, 5), (10, 0)],
-                   [(6, 0), (6, 6), (0, 0)], [(5, 5), (10, 0), (5, 5), (0, 10)], [(4, 0, 1), (8, 3, 2), (4, 6, 3), (0, 3, 4)]]
+                   [(6, 0), (6, 6), (0, 0)], [(5, 5), (10, 0), (5, 5), (0, 10)], [(4, 0, 1), (8, 3, 2), (4, 6, 3), (0, 3, 4)],
+                   # motion dominated by Z (XY advance per control point well below the resolution)
+                   [(0.1, 0.0, 4.0), (0.0, 0.1, 8.0), (0.1, 0.1, 12.0)], [(0.2, 0.0, 5.0), (-0.2, 0.0, 10.0), (0.2, 0.0, 15.0), (0.0, 0.0, 20.0)]]
         for offs in splines:
             out.append((res, lambda s, d, offs=offs: spline_case(s, offs)))
         for offs in ([(3, 0)], [(3, 0), (3, 4, 1)], [(1, 1), (1, 1), (0, 0, 2)]):
